@@ -198,8 +198,18 @@ ICMP = {
     "slt": lambda a, b: a < b, "sle": lambda a, b: a <= b, "sgt": lambda a, b: a > b, "sge": lambda a, b: a >= b,
     "ult": z3.ULT, "ule": z3.ULE, "ugt": z3.UGT, "uge": z3.UGE,
 }
+def _uno(a, b):
+    return z3.Or(z3.fpIsNaN(a), z3.fpIsNaN(b))
+
+
+# every cranelift FloatCC (IEEE-754 comparison; the u* codes are "unordered or ...")
 FCMP = {
     "eq": z3.fpEQ, "ne": lambda a, b: z3.Not(z3.fpEQ(a, b)), "lt": z3.fpLT, "le": z3.fpLEQ, "gt": z3.fpGT, "ge": z3.fpGEQ,
+    "ord": lambda a, b: z3.Not(_uno(a, b)), "uno": _uno,
+    "one": lambda a, b: z3.And(z3.Not(_uno(a, b)), z3.Not(z3.fpEQ(a, b))),
+    "ueq": lambda a, b: z3.Or(_uno(a, b), z3.fpEQ(a, b)),
+    "ult": lambda a, b: z3.Or(_uno(a, b), z3.fpLT(a, b)), "ule": lambda a, b: z3.Or(_uno(a, b), z3.fpLEQ(a, b)),
+    "ugt": lambda a, b: z3.Or(_uno(a, b), z3.fpGT(a, b)), "uge": lambda a, b: z3.Or(_uno(a, b), z3.fpGEQ(a, b)),
 }
 RNE = z3.RNE()
 
